@@ -1,6 +1,6 @@
 (* Lemmas about Model/Retry.v (C17). *)
 From Coq Require Import QArith Qabs.
-From Oras Require Import Base.Prelude Generated.GC17 Model.Retry.
+From Oras Require Import Base.Prelude Base.RetryTypes Generated.GC17 Model.Retry.
 Open Scope Z_scope.
 
 (* ------------------------------------------------------------------ *)
@@ -20,12 +20,26 @@ Proof.
   destruct (x <? lo) eqn:E1; [lia|]. destruct (x >? hi) eqn:E2; lia.
 Qed.
 
+(* the generated decision function (translated from the source) in closed form *)
+Lemma generic_retry_eq p attempt o :
+  generic_retry p attempt o =
+  if attempt >=? p_max_retry p then DStop
+  else match p_pred p o with
+       | PFail => DFail
+       | PStop => DStop
+       | PRetry => match p_backoff p attempt o with
+                   | BPanic => DPanic
+                   | BRet x => DWait (clamp (p_min p) (p_max p) x)
+                   end
+       end.
+Proof. reflexivity. Qed.
+
 (* each pause GenericPolicy.Retry computes lies within [MinWait, MaxWait],
    for any predicate, any backoff function, any attempt and any answer *)
 Lemma generic_retry_bounds p attempt o d :
   p_min p <= p_max p -> generic_retry p attempt o = DWait d -> p_min p <= d <= p_max p.
 Proof.
-  intros H. unfold generic_retry.
+  intros H. unfold generic_retry, generated_retry.
   destruct (attempt >=? p_max_retry p); [discriminate|].
   destruct (p_pred p o); try discriminate.
   destruct (p_backoff p attempt o) as [x|]; [|discriminate].
@@ -35,7 +49,7 @@ Qed.
 Lemma generic_retry_wait_lt p attempt o d :
   generic_retry p attempt o = DWait d -> attempt < p_max_retry p /\ p_pred p o = PRetry.
 Proof.
-  unfold generic_retry. destruct (attempt >=? p_max_retry p) eqn:E; [discriminate|].
+  unfold generic_retry, generated_retry. destruct (attempt >=? p_max_retry p) eqn:E; [discriminate|].
   destruct (p_pred p o); try discriminate. intros _. split; [lia|reflexivity].
 Qed.
 
@@ -43,20 +57,20 @@ Lemma generic_retry_nonretryable p attempt o :
   p_pred p o <> PRetry ->
   generic_retry p attempt o = DStop \/ generic_retry p attempt o = DFail.
 Proof.
-  unfold generic_retry. intro H. destruct (attempt >=? p_max_retry p); [now left|].
+  unfold generic_retry, generated_retry. intro H. destruct (attempt >=? p_max_retry p); [now left|].
   destruct (p_pred p o); auto. congruence.
 Qed.
 
 Lemma generic_retry_exhausted p attempt o :
   p_max_retry p <= attempt -> generic_retry p attempt o = DStop.
 Proof.
-  unfold generic_retry. intro H. destruct (attempt >=? p_max_retry p) eqn:E; [reflexivity|lia].
+  unfold generic_retry, generated_retry. intro H. destruct (attempt >=? p_max_retry p) eqn:E; [reflexivity|lia].
 Qed.
 
 Lemma generic_retry_no_panic p attempt o :
   (forall a o', p_backoff p a o' <> BPanic) -> generic_retry p attempt o <> DPanic.
 Proof.
-  intro H. unfold generic_retry. destruct (attempt >=? p_max_retry p); [discriminate|].
+  intro H. unfold generic_retry, generated_retry. destruct (attempt >=? p_max_retry p); [discriminate|].
   destruct (p_pred p o); try discriminate.
   destruct (p_backoff p attempt o) eqn:E; [discriminate|]. now apply H in E.
 Qed.
@@ -94,7 +108,7 @@ Lemma exp_backoff_fixed_total oob rnd e attempt o :
   exists d, exp_backoff_fixed oob rnd e attempt o = BRet d.
 Proof.
   unfold exp_backoff_fixed, exp_backoff_gen.
-  destruct (retry_after_secs o >? 0); [eauto|].
+  destruct (generated_backoff_retry_after_ok (retry_after_secs o)); [eauto|].
   destruct (f2i oob (exp_n e attempt) >? 0); eauto.
 Qed.
 
@@ -129,8 +143,9 @@ Lemma exp_backoff_retry_after guarded oob rnd e attempt h ch n :
   exp_backoff_gen guarded oob rnd e attempt (OStatus 429 h ch) = BRet (n * 1000000000).
 Proof.
   intros Hh Hp Hn Hr. unfold exp_backoff_gen. cbn [retry_after_secs].
-  replace (429 =? 429) with true by reflexivity.
+  replace (429 =? generated_backoff_retry_after_status) with true by reflexivity.
   destruct h as [|c h']; [congruence|]. rewrite Hp.
+  unfold generated_backoff_retry_after_ok, generated_backoff_retry_after_unit.
   destruct (n >? 0) eqn:E; [|lia]. f_equal.
   unfold wrap64. unfold two63 in *. unfold two64.
   rewrite Z.mod_small by lia. lia.
@@ -143,7 +158,7 @@ Lemma retry_after_honoured guarded oob rnd e maxretry minw maxw pred attempt h c
   generic_retry (mkPolicy maxretry minw maxw pred (exp_backoff_gen guarded oob rnd e)) attempt (OStatus 429 h ch)
   = DWait (clamp minw maxw (n * 1000000000)).
 Proof.
-  intros Hh Hp Hn Hr Ha Hpred. unfold generic_retry. cbn [p_max_retry p_pred p_backoff p_min p_max].
+  intros Hh Hp Hn Hr Ha Hpred. unfold generic_retry, generated_retry. cbn [p_max_retry p_pred p_backoff p_min p_max].
   destruct (attempt >=? maxretry) eqn:E; [lia|]. rewrite Hpred.
   now rewrite (exp_backoff_retry_after guarded oob rnd e attempt h ch n Hh Hp Hn Hr).
 Qed.
@@ -350,18 +365,33 @@ Qed.
 Lemma take_body_nil r : take_body r [] = ([], []).
 Proof. destruct r as [k|]; [|reflexivity]. unfold take_body. now rewrite firstn_nil, skipn_nil. Qed.
 
+(* the generated rewind decisions (translated from the sources) by body kind *)
+Lemma rewind_eq bd st : rewind bd st = rewind_closed bd st.
+Proof.
+  unfold rewind, rewind_closed, body_nil, body_nobody, getbody_nil, getbody_fails.
+  destruct (bk bd) as [| | | |k]; try reflexivity. destruct (s_calls st <? k)%nat; reflexivity.
+Qed.
+Lemma rt_rewind_eq bd st : rt_rewind bd st = rt_rewind_closed bd st.
+Proof.
+  unfold rt_rewind, rt_rewind_closed, rewind_closed, body_nil, body_nobody, getbody_nil, getbody_fails.
+  destruct (bk bd) as [| | | |k]; try reflexivity. destruct (s_calls st <? k)%nat; reflexivity.
+Qed.
+
 Lemma rt_rewind_ok bd st st2 : rt_rewind bd st = RwOk st2 -> rewind bd st = RwOk st2.
-Proof. unfold rt_rewind. destruct (bk bd); auto; discriminate. Qed.
+Proof. rewrite rt_rewind_eq, rewind_eq. unfold rt_rewind_closed. destruct (bk bd); auto; discriminate. Qed.
 
 Lemma rt_rewind_not_replayable bd :
   (forall st', rewind bd st' = RwNoGetBody \/ rewind bd st' = RwGetBodyErr) ->
   forall st', rt_rewind bd st' = RwNoGetBody \/ rt_rewind bd st' = RwGetBodyErr.
-Proof. intros H st'. unfold rt_rewind. destruct (bk bd); auto. Qed.
+Proof.
+  intros H st'. specialize (H st'). rewrite rewind_eq in H. rewrite rt_rewind_eq.
+  unfold rt_rewind_closed. destruct (bk bd); auto.
+Qed.
 
 Lemma rewind_fresh bd st st2 :
   wf_body bd -> (bk bd = KNone \/ bk bd = KNoBody -> s_rest st = []) -> rewind bd st = RwOk st2 -> s_rest st2 = bdata bd.
 Proof.
-  unfold rewind, wf_body. intros Hwf Hn. destruct (bk bd) as [| | | |k].
+  rewrite rewind_eq. unfold rewind_closed, wf_body. intros Hwf Hn. destruct (bk bd) as [| | | |k].
   - intro E. injection E as <-. rewrite Hn, Hwf; auto.
   - intro E. injection E as <-. rewrite Hn, Hwf; auto.
   - intro E. now injection E as <-.
@@ -435,7 +465,7 @@ Proof.
   - auto.
   - repeat split; auto. intro Hk.
     match goal with Hrw : rt_rewind _ _ = RwOk _ |- _ =>
-      apply rt_rewind_ok in Hrw; unfold rewind in Hrw;
+      apply rt_rewind_ok in Hrw; rewrite rewind_eq in Hrw; unfold rewind_closed in Hrw;
       destruct Hk as [Hk|Hk]; rewrite Hk in Hrw; injection Hrw as <- end; auto.
   - repeat split; auto.
     match goal with Hrw : rt_rewind _ _ = RwOk _ |- _ =>
@@ -477,7 +507,7 @@ Qed.
 
 Lemma oneshot_not_replayable bd : bk bd = KOneShot ->
   forall st', rewind bd st' = RwNoGetBody \/ rewind bd st' = RwGetBodyErr.
-Proof. intros H st'. left. unfold rewind. now rewrite H. Qed.
+Proof. intros H st'. left. rewrite rewind_eq. unfold rewind_closed. now rewrite H. Qed.
 
 (* ------------------------------------------------------------------ *)
 (* Cancellation                                                         *)
@@ -724,7 +754,7 @@ Lemma exp_class_sound guarded oob rnd e attempt o :
   end.
 Proof.
   intros Hrnd Hoob. unfold exp_class, exp_backoff_gen. cbv zeta.
-  destruct (retry_after_secs o >? 0); [eexists; split; [reflexivity|lia]|].
+  destruct (generated_backoff_retry_after_ok (retry_after_secs o)); [eexists; split; [reflexivity|lia]|].
   pose proof (tol_a_pos e attempt) as Hta. pose proof (tol_n_pos e attempt) as Htn.
   set (a := qtrunc (exp_a e attempt)) in *. set (n := qtrunc (exp_n e attempt)) in *.
   set (ta := tol_a e attempt) in *. set (tn := tol_n e attempt) in *.
@@ -770,7 +800,7 @@ Lemma accept_decision_complete guarded oob rnd e maxretry minw maxw attempt o :
        (generic_retry (mkPolicy maxretry minw maxw default_predicate (exp_backoff_gen guarded oob rnd e))
                       attempt o)) <> VNo.
 Proof.
-  intros Hrnd Hoob. unfold accept_decision, generic_retry. cbn [p_max_retry p_pred p_backoff p_min p_max].
+  intros Hrnd Hoob. unfold accept_decision. rewrite generic_retry_eq. cbn [p_max_retry p_pred p_backoff p_min p_max].
   destruct (attempt >=? maxretry); [discriminate|].
   destruct (default_predicate o); try discriminate.
   pose proof (exp_class_sound guarded oob rnd e attempt o Hrnd Hoob) as Hs.
@@ -1058,7 +1088,7 @@ Qed.
 Lemma generic_retry_min_gt_max p attempt o d :
   p_max p < p_min p -> generic_retry p attempt o = DWait d -> d = p_max p.
 Proof.
-  intro H. unfold generic_retry.
+  intro H. unfold generic_retry, generated_retry.
   destruct (attempt >=? p_max_retry p); [discriminate|].
   destruct (p_pred p o); try discriminate.
   destruct (p_backoff p attempt o) as [x|]; [|discriminate].
@@ -1066,4 +1096,672 @@ Proof.
   destruct (x <? p_min p) eqn:E1.
   - destruct (p_min p >? p_max p) eqn:E2; lia.
   - destruct (x >? p_max p) eqn:E2; lia.
+Qed.
+
+(* ------------------------------------------------------------------ *)
+(* The token request of a Bearer challenge, and auth.Client.Do with it spelled out *)
+
+Lemma fetch_token_attempts p cn tb tsc t0 :
+  1 <= Z.of_nat (length (attempts (k_trace (fetch_token p cn tb tsc t0)))) <= maxr p + 1.
+Proof. unfold fetch_token. cbn [k_trace]. apply round_trip_attempts. Qed.
+
+(* every attempt of the token request carries the whole form (as far as the service reads it) *)
+Lemma fetch_token_bodies_gen p cn tb tsc0 kbase t0 :
+  wf_body tb -> bodies_ok tb tsc0 kbase (attempts (k_trace (fetch_token p cn tb (skipn kbase tsc0) t0))).
+Proof.
+  intro Hwf. unfold fetch_token. cbn [k_trace].
+  destruct (round_trip_bodies_gen p cn tb tsc0 kbase (init_state tb) t0 Hwf eq_refl) as (B & _). exact B.
+Qed.
+
+Lemma fetch_token_bodies p cn tb tsc t0 :
+  wf_body tb -> bodies_ok tb tsc 0 (attempts (k_trace (fetch_token p cn tb tsc t0))).
+Proof. exact (fetch_token_bodies_gen p cn tb tsc 0%nat t0). Qed.
+
+Lemma token_ok_not_ctx r : token_ok r = true -> r <> RCtx.
+Proof. destruct r; cbn; congruence. Qed.
+Lemma token_error_ctx r : r = RCtx -> token_error r = RCtx.
+Proof. intros ->. reflexivity. Qed.
+
+Lemma auth_do_tok_at_attempts p cn bd sc tb tsc t0 :
+  let a := auth_do_tok_at p cn bd sc tb tsc t0 in
+  1 <= Z.of_nat (length (attempts (ak_first a))) <= maxr p + 1 /\
+  Z.of_nat (length (attempts (ak_token a))) <= maxr p + 1 /\
+  Z.of_nat (length (attempts (ak_second a))) <= maxr p + 1.
+Proof.
+  unfold auth_do_tok_at.
+  pose proof (round_trip_attempts p cn bd (init_state bd) sc t0) as H1. cbv zeta in H1.
+  set (o1 := round_trip p cn bd (init_state bd) sc t0) in *.
+  assert (Hm : 0 <= maxr p + 1) by (unfold maxr; lia).
+  destruct (challenged (o_res o1));
+    [|cbn [ak_first ak_token ak_second attempts length]; repeat split; try apply H1; exact Hm].
+  assert (Hk : Z.of_nat (length (attempts (k_trace
+             (if bearer_challenged (o_res o1) then fetch_token p cn tb tsc (o_time o1)
+              else mkTok true (o_res o1) [] (o_time o1) tsc)))) <= maxr p + 1).
+  { destruct (bearer_challenged (o_res o1)); [apply fetch_token_attempts|cbn; exact Hm]. }
+  set (k := if bearer_challenged (o_res o1) then fetch_token p cn tb tsc (o_time o1)
+            else mkTok true (o_res o1) [] (o_time o1) tsc) in *.
+  destruct (k_ok k); [|cbn [ak_first ak_token ak_second attempts length]; repeat split; try apply H1; auto].
+  destruct (rewind bd (o_st o1)) as [st2| |]; cbn [ak_first ak_token ak_second attempts length];
+    try (repeat split; try apply H1; auto).
+  pose proof (round_trip_attempts p cn bd st2 (o_script o1) (k_time k)) as H2. cbv zeta in H2. apply H2.
+Qed.
+
+Lemma auth_do_tok_attempts p cn bd sc tb tsc :
+  let a := auth_do_tok p cn bd sc tb tsc in
+  1 <= Z.of_nat (length (attempts (ak_first a))) <= maxr p + 1 /\
+  Z.of_nat (length (attempts (ak_token a))) <= maxr p + 1 /\
+  Z.of_nat (length (attempts (ak_second a))) <= maxr p + 1.
+Proof. exact (auth_do_tok_at_attempts p cn bd sc tb tsc 0). Qed.
+
+(* the registry's requests: first send and re-send carry the whole body; the token service's
+   requests carry the whole form ([base], [kbase]: requests the registry / the token service
+   saw before) *)
+Lemma auth_do_tok_at_bodies_gen p cn bd sc0 base tb tsc0 kbase t0 :
+  wf_body bd -> wf_body tb ->
+  let a := auth_do_tok_at p cn bd (skipn base sc0) tb (skipn kbase tsc0) t0 in
+  bodies_ok bd sc0 base (attempts (ak_first a) ++ attempts (ak_second a)) /\
+  bodies_ok tb tsc0 kbase (attempts (ak_token a)).
+Proof.
+  intros Hwf Hwt. unfold auth_do_tok_at.
+  destruct (round_trip_bodies_gen p cn bd sc0 base (init_state bd) t0 Hwf eq_refl) as (B1 & S1 & N1).
+  set (sc := skipn base sc0) in *. set (tsc := skipn kbase tsc0) in *.
+  set (o1 := round_trip p cn bd (init_state bd) sc t0) in *.
+  assert (Hnil : bodies_ok tb tsc0 kbase []) by (intros i t g Hi; destruct i; discriminate).
+  destruct (challenged (o_res o1));
+    [|cbn [ak_first ak_token ak_second attempts]; rewrite app_nil_r; split; assumption].
+  assert (Hk : bodies_ok tb tsc0 kbase (attempts (k_trace
+             (if bearer_challenged (o_res o1) then fetch_token p cn tb tsc (o_time o1)
+              else mkTok true (o_res o1) [] (o_time o1) tsc)))).
+  { destruct (bearer_challenged (o_res o1)); [apply fetch_token_bodies_gen; exact Hwt|exact Hnil]. }
+  set (k := if bearer_challenged (o_res o1) then fetch_token p cn tb tsc (o_time o1)
+            else mkTok true (o_res o1) [] (o_time o1) tsc) in *.
+  destruct (k_ok k); [|cbn [ak_first ak_token ak_second attempts]; rewrite app_nil_r; split; assumption].
+  destruct (rewind bd (o_st o1)) as [st2| |] eqn:Hrw; cbn [ak_first ak_token ak_second attempts];
+    try (rewrite app_nil_r; split; assumption).
+  assert (Hf : s_rest st2 = bdata bd) by (eapply rewind_fresh; eauto).
+  rewrite S1.
+  destruct (round_trip_bodies_gen p cn bd sc0 (base + length (attempts (o_trace o1))) st2 (k_time k) Hwf Hf)
+    as (B2 & _ & _).
+  split; [apply bodies_ok_app; assumption|exact Hk].
+Qed.
+
+Lemma auth_do_tok_bodies p cn bd sc tb tsc :
+  wf_body bd -> wf_body tb ->
+  let a := auth_do_tok p cn bd sc tb tsc in
+  bodies_ok bd sc 0 (attempts (ak_first a) ++ attempts (ak_second a)) /\
+  bodies_ok tb tsc 0 (attempts (ak_token a)).
+Proof. exact (auth_do_tok_at_bodies_gen p cn bd sc 0%nat tb tsc 0%nat 0). Qed.
+
+(* a body that cannot be replayed: one request to the registry, whatever the token service does *)
+Lemma auth_do_tok_at_not_replayable p cn bd sc tb tsc t0 :
+  (forall st', rewind bd st' = RwNoGetBody \/ rewind bd st' = RwGetBodyErr) ->
+  let a := auth_do_tok_at p cn bd sc tb tsc t0 in
+  length (attempts (ak_first a)) = 1%nat /\ ak_second a = [].
+Proof.
+  intro Hrw. unfold auth_do_tok_at.
+  destruct (round_trip_not_replayable p cn bd (init_state bd) sc t0 Hrw)
+    as (bh & sc' & got & st1 & o & t1 & _ & _ & Htr & _).
+  set (o1 := round_trip p cn bd (init_state bd) sc t0) in *.
+  destruct (challenged (o_res o1)); [|cbn [ak_first ak_second]; rewrite Htr; auto].
+  destruct (k_ok _); [|cbn [ak_first ak_second]; rewrite Htr; auto].
+  destruct (Hrw (o_st o1)) as [E|E]; rewrite E; cbn [ak_first ak_second]; rewrite Htr; auto.
+Qed.
+
+Lemma auth_do_tok_not_replayable p cn bd sc tb tsc :
+  (forall st', rewind bd st' = RwNoGetBody \/ rewind bd st' = RwGetBodyErr) ->
+  let a := auth_do_tok p cn bd sc tb tsc in
+  length (attempts (ak_first a)) = 1%nat /\ ak_second a = [].
+Proof. exact (auth_do_tok_at_not_replayable p cn bd sc tb tsc 0). Qed.
+
+(* cancellation: in every send to the registry and in the token request every attempt but the
+   first starts before the context ends; the call is over when the context ends; a pause of
+   any of them that the context ends in ends Do with the context's error at that instant *)
+Definition authk_cancel_post_at (tc t0 : Z) (res : result) (time : Z) (a : authk_out) : Prop :=
+  Forall (fun x => fst x < tc) (tl (attempts (ak_first a))) /\
+  Forall (fun x => fst x < tc) (tl (attempts (ak_token a))) /\
+  Forall (fun x => fst x < tc) (tl (attempts (ak_second a))) /\
+  ak_time a <= Z.max t0 tc /\
+  Forall (fun pd => fst pd + snd pd < tc \/ (res = RCtx /\ time = Z.max (fst pd) tc))
+         (pauses (ak_first a) ++ pauses (ak_token a) ++ pauses (ak_second a)).
+
+Definition authk_cancel_post (tc : Z) (a : authk_out) : Prop :=
+  Forall (fun x => fst x < tc) (tl (attempts (ak_first a))) /\
+  Forall (fun x => fst x < tc) (tl (attempts (ak_token a))) /\
+  Forall (fun x => fst x < tc) (tl (attempts (ak_second a))) /\
+  ak_time a <= Z.max 0 tc /\
+  Forall (fun pd => fst pd + snd pd < tc \/ (ak_res a = RCtx /\ ak_time a = Z.max (fst pd) tc))
+         (pauses (ak_first a) ++ pauses (ak_token a) ++ pauses (ak_second a)).
+
+Lemma auth_do_tok_at_cancel p bd sc tb tsc t0 tc dl :
+  let a := auth_do_tok_at p (Some (tc, dl)) bd sc tb tsc t0 in
+  authk_cancel_post_at tc t0 (ak_res a) (ak_time a) a.
+Proof.
+  unfold auth_do_tok_at, authk_cancel_post_at.
+  pose proof (round_trip_cancel p bd (init_state bd) sc t0 tc dl) as C1.
+  set (o1 := round_trip p (Some (tc, dl)) bd (init_state bd) sc t0) in *.
+  destruct (challenged (o_res o1)) eqn:Hch.
+  2:{ cbn [ak_first ak_token ak_second ak_res ak_time attempts pauses tl]. rewrite !app_nil_r.
+      destruct C1 as (A1 & T1 & P1 & _). repeat split; auto. }
+  pose proof (cancel_post_pauses_done _ _ _ C1 (challenged_not_ctx _ Hch)) as D1.
+  destruct C1 as (A1 & T1 & _ & _).
+  destruct (bearer_challenged (o_res o1)).
+  - (* token request *)
+    unfold fetch_token.
+    pose proof (round_trip_cancel p tb (init_state tb) tsc (o_time o1) tc dl) as CK.
+    set (ok := round_trip p (Some (tc, dl)) tb (init_state tb) tsc (o_time o1)) in *.
+    cbn [k_ok k_res k_trace k_time].
+    destruct (token_ok (o_res ok)) eqn:Hok.
+    + pose proof (cancel_post_pauses_done _ _ _ CK (token_ok_not_ctx _ Hok)) as DK.
+      destruct CK as (AK & TK & _ & _).
+      destruct (rewind bd (o_st o1)) as [st2| |];
+        cbn [ak_first ak_token ak_second ak_res ak_time attempts pauses tl]; rewrite ?app_nil_r;
+        try (repeat split; auto; [lia|apply Forall_app; split; apply pauses_done_weaken; assumption]).
+      destruct (round_trip_cancel p bd st2 (o_script o1) (o_time ok) tc dl) as (A2 & T2 & P2 & _).
+      repeat split; auto; [lia|].
+      apply Forall_app. split; [apply pauses_done_weaken; exact D1|].
+      apply Forall_app. split; [apply pauses_done_weaken; exact DK|exact P2].
+    + cbn [ak_first ak_token ak_second ak_res ak_time attempts pauses tl]. rewrite app_nil_r.
+      destruct CK as (AK & TK & PK & _).
+      repeat split; auto; [lia|].
+      apply Forall_app. split; [apply pauses_done_weaken; exact D1|].
+      eapply Forall_impl; [|exact PK]. intros pd [A|[A B]]; [left; exact A|right].
+      split; [apply token_error_ctx; exact A|exact B].
+  - cbn [k_ok k_res k_trace k_time].
+    destruct (rewind bd (o_st o1)) as [st2| |];
+      cbn [ak_first ak_token ak_second ak_res ak_time attempts pauses tl]; rewrite ?app_nil_r;
+      try (repeat split; auto; apply pauses_done_weaken; exact D1).
+    destruct (round_trip_cancel p bd st2 (o_script o1) (o_time o1) tc dl) as (A2 & T2 & P2 & _).
+    repeat split; auto; [lia|].
+    apply Forall_app. split; [apply pauses_done_weaken; exact D1|exact P2].
+Qed.
+
+Lemma auth_do_tok_cancel p bd sc tb tsc tc dl :
+  authk_cancel_post tc (auth_do_tok p (Some (tc, dl)) bd sc tb tsc).
+Proof. exact (auth_do_tok_at_cancel p bd sc tb tsc 0 tc dl). Qed.
+
+(* the model used so far (token request served at once) is this one with a token service
+   that answers 200 immediately, for a policy that does not retry that answer *)
+Lemma generic_retry_stop p attempt o : p_pred p o = PStop -> generic_retry p attempt o = DStop.
+Proof. intro H. unfold generic_retry, generated_retry. destruct (attempt >=? p_max_retry p); [reflexivity|]. now rewrite H. Qed.
+
+Lemma auth_do_tok_instant p bd sc tb :
+  p_pred p (OStatus 200 [] 0%N) = PStop ->
+  let a := auth_do false p None bd sc in
+  let k := auth_do_tok p None bd sc tb [] in
+  ak_res k = a_res a /\ ak_first k = a_first a /\ ak_second k = a_second a /\ ak_time k = a_time a.
+Proof.
+  intro Hp. unfold auth_do, auth_do_at, auth_do_tok, auth_do_tok_at.
+  set (o1 := round_trip p None bd (init_state bd) sc 0).
+  destruct (challenged (o_res o1)); [|cbn; auto].
+  assert (Hk : forall t0, k_ok (fetch_token p None tb [] t0) = true /\ k_time (fetch_token p None tb [] t0) = t0).
+  { intro t0. unfold fetch_token, round_trip, rt_fuel. cbn [rt_loop]. unfold rt_step. cbn [next_beh].
+    destruct (serve_none tb (init_state tb) default_beh t0) as (g & s1 & Hs). rewrite Hs.
+    cbn [b_out default_beh]. rewrite (generic_retry_stop p 0 _ Hp).
+    cbn [k_ok k_time o_res o_time result_of_outcome token_ok b_lat default_beh]. split; [reflexivity|lia]. }
+  destruct (bearer_challenged (o_res o1)).
+  - destruct (Hk (o_time o1)) as (-> & ->).
+    destruct (rewind bd (o_st o1)); cbn; auto.
+  - cbn [k_ok k_time]. destruct (rewind bd (o_st o1)); cbn; auto.
+Qed.
+
+(* ------------------------------------------------------------------ *)
+(* Refinement: Transport.RoundTrip (with its request state, script threading and trace) computes
+   exactly the stateless specification spec_send, for replayable bodies and no cancellation *)
+
+Definition replayable (bd : body) : Prop := bk bd = KReplay \/ bk bd = KNone.
+
+Lemma serve_none_eq bd st bh t :
+  serve None bd st bh t =
+  (fst (take_body (b_read bh) (s_rest st)), mkSt (snd (take_body (b_read bh) (s_rest st))) (s_calls st),
+   b_out bh, t + b_lat bh).
+Proof. unfold serve. destruct (take_body (b_read bh) (s_rest st)) as [g r]. reflexivity. Qed.
+
+Lemma rt_rewind_replayable bd st :
+  wf_body bd -> replayable bd -> s_rest st = [] \/ bk bd = KReplay ->
+  exists st2, rt_rewind bd st = RwOk st2 /\ s_rest st2 = bdata bd.
+Proof.
+  intros Hwf [H|H] Hs; rewrite rt_rewind_eq; unfold rt_rewind_closed, rewind_closed; rewrite H.
+  - eexists; split; reflexivity.
+  - exists st. split; [reflexivity|]. destruct Hs as [Hs|Hs]; [|congruence].
+    rewrite Hs. symmetry. apply Hwf. left. exact H.
+Qed.
+
+Lemma rt_loop_spec p bd sc : wf_body bd -> replayable bd ->
+  forall fuel i st t tr, s_rest st = bdata bd ->
+    let out := rt_loop fuel p None bd st (skipn i sc) t (Z.of_nat i) tr in
+    o_res out = fst (fst (spec_run p bd sc t i fuel)) /\
+    o_time out = snd (fst (spec_run p bd sc t i fuel)) /\
+    attempts (o_trace out) = attempts tr ++ snd (spec_run p bd sc t i fuel).
+Proof.
+  intros Hwf Hrep. induction fuel as [|fuel IH]; intros i st t tr Hst.
+  - cbn. rewrite app_nil_r. auto.
+  - cbn [rt_loop spec_run]. unfold rt_step. rewrite next_beh_skipn, serve_none_eq, Hst.
+    set (bh := nth i sc default_beh).
+    set (got := fst (take_body (b_read bh) (bdata bd))).
+    destruct (generic_retry p (Z.of_nat i) (b_out bh)) as [| |d|] eqn:Hg;
+      try (cbn [o_res o_time o_trace fst snd]; rewrite attempts_app; cbn [attempts]; auto).
+    destruct (d <? 0) eqn:Hd;
+      [cbn [o_res o_time o_trace fst snd]; rewrite attempts_app; cbn [attempts]; auto|].
+    destruct (rt_rewind_replayable bd
+                (mkSt (snd (take_body (b_read bh) (bdata bd))) (s_calls st)) Hwf Hrep) as (st2 & Hrw & Hfresh).
+    { destruct Hrep as [Hr|Hr]; [right; exact Hr|left]. cbn [s_rest].
+      rewrite (Hwf (or_introl Hr)), take_body_nil. reflexivity. }
+    rewrite Hrw, pause_cancelled_none.
+    replace (Z.of_nat i + 1) with (Z.of_nat (S i)) by lia.
+    specialize (IH (S i) st2 (t + b_lat bh + d) ((tr ++ [EAttempt t got]) ++ [EPause (t + b_lat bh) d]) Hfresh).
+    cbv zeta in IH. destruct IH as (R & T & A).
+    destruct (spec_run p bd sc (t + b_lat bh + d) (S i) fuel) as [[r te] l].
+    cbn [fst snd] in *. rewrite R, T, A. rewrite !attempts_app. cbn [attempts]. rewrite app_nil_r, <- app_assoc.
+    auto.
+Qed.
+
+Lemma round_trip_refines_spec p bd sc t :
+  wf_body bd -> replayable bd ->
+  let out := round_trip p None bd (init_state bd) sc t in
+  (o_res out, o_time out, attempts (o_trace out)) = spec_send p bd sc t.
+Proof.
+  intros Hwf Hrep. unfold round_trip, spec_send.
+  destruct (rt_loop_spec p bd sc Hwf Hrep (rt_fuel p) 0%nat (init_state bd) t [] eq_refl) as (R & T & A).
+  cbn [skipn Z.of_nat app] in *. rewrite R, T, A.
+  destruct (spec_run p bd sc t 0 (rt_fuel p)) as [[r te] l]. reflexivity.
+Qed.
+
+(* the arithmetic of ExponentialBackoff as translated from the source, in closed form *)
+Lemma exp_arith_eq e attempt :
+  exp_temp e attempt = (inject_Z (e_base e) * Qpower (e_factor e) attempt)%Q /\
+  exp_a e attempt = (exp_temp e attempt * (1 - e_jitter e))%Q /\
+  exp_n e attempt = ((2 # 1) * e_jitter e * exp_temp e attempt)%Q /\
+  generated_backoff_retry_after_status = 429 /\ generated_backoff_retry_after_unit = 1000000000 /\
+  (forall ra, generated_backoff_retry_after_ok ra = (ra >? 0)).
+Proof. repeat split; reflexivity. Qed.
+
+(* ------------------------------------------------------------------ *)
+(* Refinement of the whole auth stack to the stateless specification *)
+
+Lemma round_trip_refines_spec_st p bd sc t st :
+  wf_body bd -> replayable bd -> s_rest st = bdata bd ->
+  let out := round_trip p None bd st sc t in
+  (o_res out, o_time out, attempts (o_trace out)) = spec_send p bd sc t.
+Proof.
+  intros Hwf Hrep Hst. unfold round_trip, spec_send.
+  destruct (rt_loop_spec p bd sc Hwf Hrep (rt_fuel p) 0%nat st t [] Hst) as (R & T & A).
+  cbn [skipn Z.of_nat app] in *. rewrite R, T, A.
+  destruct (spec_run p bd sc t 0 (rt_fuel p)) as [[r te] l]. reflexivity.
+Qed.
+
+Lemma rewind_replayable bd st :
+  wf_body bd -> replayable bd -> (bk bd = KNone \/ bk bd = KNoBody -> s_rest st = []) ->
+  exists st2, rewind bd st = RwOk st2 /\ s_rest st2 = bdata bd.
+Proof.
+  intros Hwf [H|H] Hs; rewrite rewind_eq; unfold rewind_closed; rewrite H.
+  - eexists; split; reflexivity.
+  - exists st. split; [reflexivity|]. rewrite Hs by (left; exact H). symmetry. apply Hwf. left. exact H.
+Qed.
+
+Lemma auth_do_tok_at_refines_spec p bd sc tb tsc t0 :
+  wf_body bd -> replayable bd -> wf_body tb -> replayable tb ->
+  let a := auth_do_tok_at p None bd sc tb tsc t0 in
+  (ak_res a, ak_time a, attempts (ak_first a), attempts (ak_token a), attempts (ak_second a))
+  = spec_auth_at p bd sc tb tsc t0.
+Proof.
+  intros Hwf Hrep Hwt Hrt. unfold auth_do_tok_at, spec_auth_at.
+  pose proof (round_trip_refines_spec_st p bd sc t0 (init_state bd) Hwf Hrep eq_refl) as E1. cbv zeta in E1.
+  destruct (round_trip_bodies_gen p None bd sc 0%nat (init_state bd) t0 Hwf eq_refl) as (_ & S1 & N1).
+  cbn [skipn Nat.add] in S1, N1.
+  set (o1 := round_trip p None bd (init_state bd) sc t0) in *.
+  destruct (spec_send p bd sc t0) as [[r1 t1] l1]. injection E1 as Er Et El. rewrite Er.
+  destruct (challenged r1); [|cbn [ak_res ak_time ak_first ak_token ak_second attempts]; congruence].
+  destruct (rewind_replayable bd (o_st o1) Hwf Hrep N1) as (st2 & Hrw & Hfresh).
+  destruct (bearer_challenged r1); cbn [negb orb].
+  - unfold fetch_token.
+    pose proof (round_trip_refines_spec_st p tb tsc (o_time o1) (init_state tb) Hwt Hrt eq_refl) as EK. cbv zeta in EK.
+    set (ok := round_trip p None tb (init_state tb) tsc (o_time o1)) in *.
+    rewrite <- Et. destruct (spec_send p tb tsc (o_time o1)) as [[kr kt] kl]. injection EK as Kr Kt Kl.
+    cbn [k_ok k_res k_trace k_time]. rewrite Kr.
+    destruct (token_ok kr).
+    + rewrite Hrw. cbn [ak_res ak_time ak_first ak_token ak_second].
+      pose proof (round_trip_refines_spec_st p bd (o_script o1) (o_time ok) st2 Hwf Hrep Hfresh) as E2. cbv zeta in E2.
+      rewrite S1, El, Kt in E2.
+      destruct (spec_send p bd (skipn (length l1) sc) kt) as [[r2 t2] l2]. injection E2 as R2 T2 L2.
+      rewrite <- Kt in *. congruence.
+    + cbn [ak_res ak_time ak_first ak_token ak_second attempts]. congruence.
+  - cbn [k_ok k_time k_trace]. rewrite Hrw. cbn [ak_res ak_time ak_first ak_token ak_second attempts].
+    pose proof (round_trip_refines_spec_st p bd (o_script o1) (o_time o1) st2 Hwf Hrep Hfresh) as E2. cbv zeta in E2.
+    rewrite S1, El, Et in E2.
+    destruct (spec_send p bd (skipn (length l1) sc) t1) as [[r2 t2] l2]. injection E2 as R2 T2 L2.
+    congruence.
+Qed.
+
+(* blobStore.Mount declined with 202: the upload reads from an io.ReadCloser (GetBody nil): the
+   PUT is exactly one request, whatever the registry answers *)
+Lemma mount_fallback_once authc warm0 p cn data sc :
+  match u_put (blob_push_gen authc warm0 p cn (mkBody KOneShot data) sc) with
+  | Some put => length (auth_attempts put) = 1%nat
+  | None => True
+  end.
+Proof. apply blob_push_not_replayable. apply oneshot_not_replayable. reflexivity. Qed.
+
+(* the status constants the model reads from the sources *)
+Lemma status_constants :
+  challenge_status = 401 /\ challenge_status_2 = 401 /\ token_ok_status = 200 /\ accepted_status = 202 /\
+  fetch_oauth2_status_cmps = fetch_distribution_status_cmps /\
+  blob_put_status_cmps = [(1, 201)] /\ manifest_push_status_cmps = [(1, 201)] /\
+  blob_mount_status_cmps = [(0, 201); (1, 202)].
+Proof. repeat split; reflexivity. Qed.
+
+(* ------------------------------------------------------------------ *)
+(* blob push / mount fallback with the token requests spelled out *)
+
+Lemma plain_tok_at_bodies_gen p cn bd sc0 base t0 :
+  wf_body bd ->
+  bodies_ok bd sc0 base (authk_attempts (plain_tok_at p cn bd (skipn base sc0) t0)).
+Proof.
+  intro Hwf. unfold plain_tok_at, authk_attempts. cbn [ak_first ak_second attempts]. rewrite app_nil_r.
+  destruct (round_trip_bodies_gen p cn bd sc0 base (init_state bd) t0 Hwf eq_refl) as (B1 & _ & _). exact B1.
+Qed.
+
+(* every request of the PUT carries the blob as far as the registry reads it, at the script
+   position after the POST's requests; every token request of the push (the POST's and the
+   PUT's) carries the whole form, at the token service's script position *)
+Lemma blob_push_tok_bodies authc p cn bd sc tb tsc :
+  wf_body bd -> wf_body tb ->
+  let u := blob_push_tok authc p cn bd sc tb tsc in
+  bodies_ok tb tsc 0 (attempts (ak_token (uk_post u))) /\
+  match uk_put u with
+  | Some put =>
+    bodies_ok bd sc (length (authk_attempts (uk_post u))) (authk_attempts put) /\
+    bodies_ok tb tsc (length (attempts (ak_token (uk_post u)))) (attempts (ak_token put))
+  | None => True
+  end.
+Proof.
+  intros Hwf Hwt. unfold blob_push_tok.
+  assert (Hnb : wf_body no_body) by (intros _; reflexivity).
+  assert (Hnil : forall b, bodies_ok tb tsc b []) by (intros b i t g Hi; destruct i; discriminate).
+  assert (Hpost : bodies_ok tb tsc 0 (attempts (ak_token
+            (if authc then auth_do_tok_at p cn no_body sc tb tsc 0 else plain_tok_at p cn no_body sc 0)))).
+  { destruct authc.
+    - exact (proj2 (auth_do_tok_at_bodies_gen p cn no_body sc 0%nat tb tsc 0%nat 0 Hnb Hwt)).
+    - cbn [plain_tok_at ak_token attempts]. apply Hnil. }
+  set (post := if authc then auth_do_tok_at p cn no_body sc tb tsc 0 else plain_tok_at p cn no_body sc 0) in *.
+  destruct (accepted (ak_res post)); cbn [uk_post uk_put]; [|split; [exact Hpost|exact I]].
+  split; [exact Hpost|].
+  destruct (authc && negb match attempts (ak_second post) with [] => false | _ :: _ => true end).
+  - apply auth_do_tok_at_bodies_gen; assumption.
+  - split; [apply plain_tok_at_bodies_gen; exact Hwf|].
+    cbn [plain_tok_at ak_token attempts]. apply Hnil.
+Qed.
+
+(* a blob that cannot be replayed (one-shot reader, mount fallback) goes out in exactly one PUT
+   request, whatever registry and token service answer *)
+Lemma blob_push_tok_not_replayable authc p cn bd sc tb tsc :
+  (forall st', rewind bd st' = RwNoGetBody \/ rewind bd st' = RwGetBodyErr) ->
+  match uk_put (blob_push_tok authc p cn bd sc tb tsc) with
+  | Some put => length (authk_attempts put) = 1%nat
+  | None => True
+  end.
+Proof.
+  intro Hrw. unfold blob_push_tok.
+  set (post := if authc then auth_do_tok_at p cn no_body sc tb tsc 0 else plain_tok_at p cn no_body sc 0).
+  destruct (accepted (ak_res post)); cbn [uk_put]; [|exact I].
+  set (sc' := skipn (length (authk_attempts post)) sc).
+  set (tsc' := skipn (length (attempts (ak_token post))) tsc).
+  destruct (authc && negb match attempts (ak_second post) with [] => false | _ :: _ => true end).
+  - destruct (auth_do_tok_at_not_replayable p cn bd sc' tb tsc' (ak_time post) Hrw) as (L & E).
+    unfold authk_attempts. rewrite E. cbn [attempts]. rewrite app_nil_r. exact L.
+  - destruct (round_trip_not_replayable p cn bd (init_state bd) sc' (ak_time post) Hrw)
+      as (bh & sc'' & got & st1 & o & t1 & _ & _ & Htr & _).
+    unfold plain_tok_at, authk_attempts. cbn [ak_first ak_second attempts]. rewrite Htr. reflexivity.
+Qed.
+
+Lemma plain_tok_at_cancel p bd sc t0 tc dl :
+  let a := plain_tok_at p (Some (tc, dl)) bd sc t0 in
+  authk_cancel_post_at tc t0 (ak_res a) (ak_time a) a.
+Proof.
+  unfold plain_tok_at, authk_cancel_post_at. cbn [ak_first ak_token ak_second ak_res ak_time attempts pauses tl].
+  destruct (round_trip_cancel p bd (init_state bd) sc t0 tc dl) as (A1 & T1 & P1 & _).
+  rewrite !app_nil_r. repeat split; auto.
+Qed.
+
+Lemma authk_pauses_done tc t0 a :
+  authk_cancel_post_at tc t0 (ak_res a) (ak_time a) a -> ak_res a <> RCtx ->
+  Forall (fun pd => fst pd + snd pd < tc) (pauses (ak_first a) ++ pauses (ak_token a) ++ pauses (ak_second a)).
+Proof.
+  intros (_ & _ & _ & _ & Hp) Hne. eapply Forall_impl; [|exact Hp].
+  intros pd [A|[A _]]; [exact A|congruence].
+Qed.
+
+(* cancellation of a push: POST, PUT and both token requests *)
+Lemma blob_push_tok_cancel authc p bd sc tb tsc tc dl :
+  let u := blob_push_tok authc p (Some (tc, dl)) bd sc tb tsc in
+  authk_cancel_post_at tc 0 (uk_res u) (uk_time u) (uk_post u) /\
+  uk_time u <= Z.max 0 tc /\
+  match uk_put u with
+  | Some put => exists t1, t1 <= Z.max 0 tc /\ authk_cancel_post_at tc t1 (uk_res u) (uk_time u) put
+  | None => True
+  end.
+Proof.
+  unfold blob_push_tok.
+  assert (Hpost : let post := if authc then auth_do_tok_at p (Some (tc, dl)) no_body sc tb tsc 0
+                              else plain_tok_at p (Some (tc, dl)) no_body sc 0 in
+                  authk_cancel_post_at tc 0 (ak_res post) (ak_time post) post).
+  { destruct authc; [apply auth_do_tok_at_cancel|apply plain_tok_at_cancel]. }
+  cbv zeta in Hpost.
+  set (post := if authc then auth_do_tok_at p (Some (tc, dl)) no_body sc tb tsc 0
+               else plain_tok_at p (Some (tc, dl)) no_body sc 0) in *.
+  destruct (accepted (ak_res post)) eqn:Hacc; cbn [uk_res uk_time uk_post uk_put].
+  2:{ split; [exact Hpost|]. split; [|exact I]. destruct Hpost as (_ & _ & _ & T & _). exact T. }
+  pose proof (authk_pauses_done _ _ _ Hpost (accepted_not_ctx _ Hacc)) as Dp.
+  destruct Hpost as (A1 & A2 & A3 & Tp & _).
+  set (sc' := skipn (length (authk_attempts post)) sc).
+  set (tsc' := skipn (length (attempts (ak_token post))) tsc).
+  assert (Hput : let put := if authc && negb match attempts (ak_second post) with [] => false | _ :: _ => true end
+                            then auth_do_tok_at p (Some (tc, dl)) bd sc' tb tsc' (ak_time post)
+                            else plain_tok_at p (Some (tc, dl)) bd sc' (ak_time post) in
+                 authk_cancel_post_at tc (ak_time post) (ak_res put) (ak_time put) put).
+  { destruct (authc && negb match attempts (ak_second post) with [] => false | _ :: _ => true end);
+      [apply auth_do_tok_at_cancel|apply plain_tok_at_cancel]. }
+  cbv zeta in Hput.
+  set (put := if authc && negb match attempts (ak_second post) with [] => false | _ :: _ => true end
+              then auth_do_tok_at p (Some (tc, dl)) bd sc' tb tsc' (ak_time post)
+              else plain_tok_at p (Some (tc, dl)) bd sc' (ak_time post)) in *.
+  split; [|split].
+  - repeat split; auto. apply pauses_done_weaken. exact Dp.
+  - destruct Hput as (_ & _ & _ & T & _). lia.
+  - exists (ak_time post). split; [exact Tp|exact Hput].
+Qed.
+
+Lemma auth_do_tok_refines_spec p bd sc tb tsc :
+  wf_body bd -> replayable bd -> wf_body tb -> replayable tb ->
+  let a := auth_do_tok p None bd sc tb tsc in
+  (ak_res a, ak_time a, attempts (ak_first a), attempts (ak_token a), attempts (ak_second a))
+  = spec_auth p bd sc tb tsc.
+Proof. exact (fun H1 H2 H3 H4 => auth_do_tok_at_refines_spec p bd sc tb tsc 0 H1 H2 H3 H4). Qed.
+
+Lemma plain_tok_at_refines_spec p bd sc t0 :
+  wf_body bd -> replayable bd ->
+  let a := plain_tok_at p None bd sc t0 in
+  (ak_res a, ak_time a, attempts (ak_first a), attempts (ak_token a), attempts (ak_second a))
+  = spec_plain_at p bd sc t0.
+Proof.
+  intros Hwf Hrep. unfold plain_tok_at, spec_plain_at. cbn [ak_res ak_time ak_first ak_token ak_second attempts].
+  pose proof (round_trip_refines_spec_st p bd sc t0 (init_state bd) Hwf Hrep eq_refl) as E. cbv zeta in E.
+  destruct (spec_send p bd sc t0) as [[r t] l]. injection E as -> -> ->. reflexivity.
+Qed.
+
+Definition show_authk (a : authk_out) :=
+  (ak_res a, ak_time a, attempts (ak_first a), attempts (ak_token a), attempts (ak_second a)).
+
+(* the whole blob push (POST, token requests, PUT) refines the stateless spec_push *)
+Lemma blob_push_tok_refines_spec authc p bd sc tb tsc :
+  wf_body bd -> replayable bd -> wf_body tb -> replayable tb ->
+  let u := blob_push_tok authc p None bd sc tb tsc in
+  (uk_res u, uk_time u, show_authk (uk_post u), option_map show_authk (uk_put u))
+  = spec_push authc p bd sc tb tsc.
+Proof.
+  intros Hwf Hrep Hwt Hrt. unfold blob_push_tok, spec_push.
+  assert (Hnb : wf_body no_body) by (intros _; reflexivity).
+  assert (Hrn : replayable no_body) by (right; reflexivity).
+  assert (Hpost : show_authk (if authc then auth_do_tok_at p None no_body sc tb tsc 0 else plain_tok_at p None no_body sc 0)
+                  = (if authc then spec_auth_at p no_body sc tb tsc 0 else spec_plain_at p no_body sc 0)).
+  { destruct authc; [apply auth_do_tok_at_refines_spec|apply plain_tok_at_refines_spec]; assumption. }
+  set (post := if authc then auth_do_tok_at p None no_body sc tb tsc 0 else plain_tok_at p None no_body sc 0) in *.
+  destruct (if authc then spec_auth_at p no_body sc tb tsc 0 else spec_plain_at p no_body sc 0)
+    as [[[[r t] l1] kl] l2] eqn:Esp.
+  unfold show_authk in Hpost. injection Hpost as Er Et E1 Ek E2.
+  rewrite Er. destruct (accepted r); cbn [uk_res uk_time uk_post uk_put option_map].
+  2:{ unfold show_authk. congruence. }
+  unfold authk_attempts. rewrite E1, E2, Ek, Et.
+  set (sc' := skipn (length (l1 ++ l2)) sc). set (tsc' := skipn (length kl) tsc).
+  assert (Hput : show_authk (if authc && negb match l2 with [] => false | _ :: _ => true end
+                             then auth_do_tok_at p None bd sc' tb tsc' t else plain_tok_at p None bd sc' t)
+                 = (if authc && negb match l2 with [] => false | _ :: _ => true end
+                    then spec_auth_at p bd sc' tb tsc' t else spec_plain_at p bd sc' t)).
+  { destruct (authc && negb match l2 with [] => false | _ :: _ => true end);
+      [apply auth_do_tok_at_refines_spec|apply plain_tok_at_refines_spec]; assumption. }
+  set (put := if authc && negb match l2 with [] => false | _ :: _ => true end
+              then auth_do_tok_at p None bd sc' tb tsc' t else plain_tok_at p None bd sc' t) in *.
+  rewrite <- Hput. unfold show_authk at 2 3. cbn [fst snd].
+  unfold show_authk. rewrite Er, Et, E1, Ek, E2. reflexivity.
+Qed.
+
+(* ------------------------------------------------------------------ *)
+(* auth.Client.Do with a warm Bearer cache and the token request spelled out *)
+
+Lemma auth_do_tokw_at_attempts p cn bd sc tb tsc t0 :
+  let a := auth_do_tokw_at p cn bd sc tb tsc t0 in
+  1 <= Z.of_nat (length (attempts (aw_first a))) <= maxr p + 1 /\
+  Z.of_nat (length (attempts (aw_second a))) <= maxr p + 1 /\
+  Z.of_nat (length (attempts (aw_token a))) <= maxr p + 1 /\
+  Z.of_nat (length (attempts (aw_third a))) <= maxr p + 1.
+Proof.
+  unfold auth_do_tokw_at.
+  pose proof (round_trip_attempts p cn bd (init_state bd) sc t0) as H1. cbv zeta in H1.
+  set (o1 := round_trip p cn bd (init_state bd) sc t0) in *.
+  assert (Hm : 0 <= maxr p + 1) by (unfold maxr; lia).
+  destruct (challenged (o_res o1));
+    [|cbn [aw_first aw_second aw_token aw_third attempts length]; repeat split; try apply H1; exact Hm].
+  destruct (rewind bd (o_st o1)) as [st2| |]; cbn [aw_first aw_second aw_token aw_third attempts length];
+    try (repeat split; try apply H1; exact Hm).
+  pose proof (round_trip_attempts p cn bd st2 (o_script o1) (o_time o1)) as H2. cbv zeta in H2.
+  set (o2 := round_trip p cn bd st2 (o_script o1) (o_time o1)) in *.
+  destruct (bearer_challenged (o_res o1) && unauthorized (o_res o2));
+    [|cbn [aw_first aw_second aw_token aw_third attempts length]; repeat split; try apply H1; try apply H2; exact Hm].
+  pose proof (fetch_token_attempts p cn tb tsc (o_time o2)) as HK.
+  set (k := fetch_token p cn tb tsc (o_time o2)) in *.
+  destruct (k_ok k);
+    [|cbn [aw_first aw_second aw_token aw_third attempts length]; repeat split; try apply H1; try apply H2; try apply HK; exact Hm].
+  destruct (rewind bd (o_st o2)) as [st3| |]; cbn [aw_first aw_second aw_token aw_third attempts length];
+    try (repeat split; try apply H1; try apply H2; try apply HK; exact Hm).
+  pose proof (round_trip_attempts p cn bd st3 (o_script o2) (k_time k)) as H3. cbv zeta in H3.
+  repeat split; try apply H1; try apply H2; try apply HK; apply H3.
+Qed.
+
+Lemma auth_do_tokw_at_bodies p cn bd sc tb tsc t0 :
+  wf_body bd -> wf_body tb ->
+  let a := auth_do_tokw_at p cn bd sc tb tsc t0 in
+  bodies_ok bd sc 0 (attempts (aw_first a) ++ attempts (aw_second a) ++ attempts (aw_third a)) /\
+  bodies_ok tb tsc 0 (attempts (aw_token a)).
+Proof.
+  intros Hwf Hwt. unfold auth_do_tokw_at.
+  destruct (round_trip_bodies_gen p cn bd sc 0%nat (init_state bd) t0 Hwf eq_refl) as (B1 & S1 & N1).
+  cbn [skipn] in *.
+  set (o1 := round_trip p cn bd (init_state bd) sc t0) in *.
+  assert (Hnil : bodies_ok tb tsc 0 []) by (intros i t g Hi; destruct i; discriminate).
+  destruct (challenged (o_res o1));
+    [|cbn [aw_first aw_second aw_token aw_third attempts]; rewrite !app_nil_r; split; assumption].
+  destruct (rewind bd (o_st o1)) as [st2| |] eqn:Hrw; cbn [aw_first aw_second aw_token aw_third attempts];
+    try (rewrite !app_nil_r; split; assumption).
+  assert (Hf : s_rest st2 = bdata bd) by (eapply rewind_fresh; eauto).
+  cbn [Nat.add] in S1. rewrite S1.
+  destruct (round_trip_bodies_gen p cn bd sc (length (attempts (o_trace o1))) st2 (o_time o1) Hwf Hf)
+    as (B2 & S2 & N2).
+  set (o2 := round_trip p cn bd st2 (skipn (length (attempts (o_trace o1))) sc) (o_time o1)) in *.
+  destruct (bearer_challenged (o_res o1) && unauthorized (o_res o2)).
+  2:{ cbn [aw_first aw_second aw_token aw_third attempts]. rewrite app_nil_r.
+      split; [apply bodies_ok_app; assumption|exact Hnil]. }
+  pose proof (fetch_token_bodies p cn tb tsc (o_time o2) Hwt) as BK.
+  set (k := fetch_token p cn tb tsc (o_time o2)) in *.
+  destruct (k_ok k);
+    [|cbn [aw_first aw_second aw_token aw_third attempts]; rewrite app_nil_r;
+      split; [apply bodies_ok_app; assumption|exact BK]].
+  destruct (rewind bd (o_st o2)) as [st3| |] eqn:Hrw2; cbn [aw_first aw_second aw_token aw_third attempts];
+    try (rewrite app_nil_r; split; [apply bodies_ok_app; assumption|exact BK]).
+  assert (Hf3 : s_rest st3 = bdata bd) by (eapply rewind_fresh; eauto).
+  rewrite S2.
+  destruct (round_trip_bodies_gen p cn bd sc
+              (length (attempts (o_trace o1)) + length (attempts (o_trace o2))) st3 (k_time k) Hwf Hf3)
+    as (B3 & _ & _).
+  split; [|exact BK].
+  apply bodies_ok_app; [exact B1|]. apply bodies_ok_app; [exact B2|exact B3].
+Qed.
+
+Lemma auth_do_tokw_at_not_replayable p cn bd sc tb tsc t0 :
+  (forall st', rewind bd st' = RwNoGetBody \/ rewind bd st' = RwGetBodyErr) ->
+  let a := auth_do_tokw_at p cn bd sc tb tsc t0 in
+  length (attempts (aw_first a)) = 1%nat /\ aw_second a = [] /\ aw_token a = [] /\ aw_third a = [].
+Proof.
+  intro Hrw. unfold auth_do_tokw_at.
+  destruct (round_trip_not_replayable p cn bd (init_state bd) sc t0 Hrw)
+    as (bh & sc' & got & st1 & o & t1 & _ & _ & Htr & _).
+  set (o1 := round_trip p cn bd (init_state bd) sc t0) in *.
+  destruct (challenged (o_res o1)); [|cbn [aw_first aw_second aw_token aw_third]; rewrite Htr; auto].
+  destruct (Hrw (o_st o1)) as [E|E]; rewrite E; cbn [aw_first aw_second aw_token aw_third]; rewrite Htr; auto.
+Qed.
+
+Definition authw_cancel_post (tc t0 : Z) (a : authw_out) : Prop :=
+  Forall (fun x => fst x < tc) (tl (attempts (aw_first a))) /\
+  Forall (fun x => fst x < tc) (tl (attempts (aw_second a))) /\
+  Forall (fun x => fst x < tc) (tl (attempts (aw_token a))) /\
+  Forall (fun x => fst x < tc) (tl (attempts (aw_third a))) /\
+  aw_time a <= Z.max t0 tc /\
+  Forall (fun pd => fst pd + snd pd < tc \/ (aw_res a = RCtx /\ aw_time a = Z.max (fst pd) tc))
+         (pauses (aw_first a) ++ pauses (aw_second a) ++ pauses (aw_token a) ++ pauses (aw_third a)).
+
+Lemma auth_do_tokw_at_cancel p bd sc tb tsc t0 tc dl :
+  authw_cancel_post tc t0 (auth_do_tokw_at p (Some (tc, dl)) bd sc tb tsc t0).
+Proof.
+  unfold auth_do_tokw_at, authw_cancel_post.
+  pose proof (round_trip_cancel p bd (init_state bd) sc t0 tc dl) as C1.
+  set (o1 := round_trip p (Some (tc, dl)) bd (init_state bd) sc t0) in *.
+  destruct (challenged (o_res o1)) eqn:Hch.
+  2:{ cbn [aw_first aw_second aw_token aw_third aw_res aw_time attempts pauses tl]. rewrite !app_nil_r.
+      destruct C1 as (A1 & T1 & P1 & _). repeat split; auto. }
+  pose proof (cancel_post_pauses_done _ _ _ C1 (challenged_not_ctx _ Hch)) as D1.
+  destruct C1 as (A1 & T1 & _ & _).
+  destruct (rewind bd (o_st o1)) as [st2| |];
+    cbn [aw_first aw_second aw_token aw_third aw_res aw_time attempts pauses tl]; rewrite ?app_nil_r;
+    try (repeat split; auto; apply pauses_done_weaken; exact D1).
+  pose proof (round_trip_cancel p bd st2 (o_script o1) (o_time o1) tc dl) as C2.
+  set (o2 := round_trip p (Some (tc, dl)) bd st2 (o_script o1) (o_time o1)) in *.
+  destruct (bearer_challenged (o_res o1) && unauthorized (o_res o2)) eqn:Hw.
+  2:{ cbn [aw_first aw_second aw_token aw_third aw_res aw_time attempts pauses tl]. rewrite !app_nil_r.
+      destruct C2 as (A2 & T2 & P2 & _). repeat split; auto; [lia|].
+      apply Forall_app. split; [apply pauses_done_weaken; exact D1|exact P2]. }
+  apply andb_true_iff in Hw. destruct Hw as [_ Hun].
+  pose proof (cancel_post_pauses_done _ _ _ C2 (unauthorized_not_ctx _ Hun)) as D2.
+  destruct C2 as (A2 & T2 & _ & _).
+  unfold fetch_token.
+  pose proof (round_trip_cancel p tb (init_state tb) tsc (o_time o2) tc dl) as CK.
+  set (ok := round_trip p (Some (tc, dl)) tb (init_state tb) tsc (o_time o2)) in *.
+  cbn [k_ok k_res k_trace k_time].
+  destruct (token_ok (o_res ok)) eqn:Hok.
+  - pose proof (cancel_post_pauses_done _ _ _ CK (token_ok_not_ctx _ Hok)) as DK.
+    destruct CK as (AK & TK & _ & _).
+    destruct (rewind bd (o_st o2)) as [st3| |];
+      cbn [aw_first aw_second aw_token aw_third aw_res aw_time attempts pauses tl]; rewrite ?app_nil_r;
+      try (repeat split; auto; [lia|
+           apply Forall_app; split; [apply pauses_done_weaken; exact D1|];
+           apply Forall_app; split; apply pauses_done_weaken; assumption]).
+    destruct (round_trip_cancel p bd st3 (o_script o2) (o_time ok) tc dl) as (A3 & T3 & P3 & _).
+    repeat split; auto; [lia|].
+    apply Forall_app. split; [apply pauses_done_weaken; exact D1|].
+    apply Forall_app. split; [apply pauses_done_weaken; exact D2|].
+    apply Forall_app. split; [apply pauses_done_weaken; exact DK|exact P3].
+  - cbn [aw_first aw_second aw_token aw_third aw_res aw_time attempts pauses tl]. rewrite app_nil_r.
+    destruct CK as (AK & TK & PK & _).
+    repeat split; auto; [lia|].
+    apply Forall_app. split; [apply pauses_done_weaken; exact D1|].
+    apply Forall_app. split; [apply pauses_done_weaken; exact D2|].
+    eapply Forall_impl; [|exact PK]. intros pd [A|[A B]]; [left; exact A|right].
+    split; [apply token_error_ctx; exact A|exact B].
 Qed.
